@@ -115,15 +115,16 @@ pub fn mutate_cbor(seed: &[u8], rng: &mut Rng, cap: usize, one_field: bool, out:
             for ai in [28u8, 29, 30, 31] { out.push(("ai-reserved".into(), splice(seed, o, he, &[(h.major << 5) | ai]))); }
         }
         // major-type swaps (same argument bytes)
-        for m in 0..8u8 { if m != h.major { let mut v = seed.to_vec(); v[o] = (m << 5) | (v[o] & 31); out.push(("major".into(), v)); } }
+        let full = cap >= 8;     // thorough: every variant; quick: a seeded sample of the cheap, numerous ones
+        for m in 0..8u8 { if m != h.major && (full || rng.chance(4, 7)) { let mut v = seed.to_vec(); v[o] = (m << 5) | (v[o] & 31); out.push(("major".into(), v)); } }
         // inserted break / null / undefined / tags / a stray item in front of this head
         for ins in [&[0xffu8][..], &[0xf6], &[0xf7], &[0xd8, 0x18], &[0xd9, 0x01, 0x02], &[0xc2], &[0x00], &[0x40], &[0x80], &[0xa0], &[0x9f], &[0x5f], &[0xf5]] {
-            out.push(("insert".into(), splice(seed, o, o, ins)));
+            if full || rng.chance(1, 2) { out.push(("insert".into(), splice(seed, o, o, ins))); }
         }
         // delete the item, duplicate the item, replace it by null / empty containers
         out.push(("delete".into(), splice(seed, o, h.end.min(n), &[])));
         if h.end <= n && h.end - o <= 200 { let item = seed[o..h.end].to_vec(); out.push(("dup-item".into(), splice(seed, o, o, &item))); }
-        for rep in [&[0xf6u8][..], &[0x80], &[0xa0], &[0x40], &[0x60], &[0x00], &[0x20], &[0x9f, 0xff], &[0xbf, 0xff], &[0x5f, 0xff]] { out.push(("replace".into(), splice(seed, o, h.end.min(n), rep))); }
+        for rep in [&[0xf6u8][..], &[0x80], &[0xa0], &[0x40], &[0x60], &[0x00], &[0x20], &[0x9f, 0xff], &[0xbf, 0xff], &[0x5f, 0xff]] { if full || rng.chance(1, 2) { out.push(("replace".into(), splice(seed, o, h.end.min(n), rep))); } }
         // definite -> indefinite container / chunked string, and back
         if h.ai != 31 && !h.inner && h.end <= n {
             match h.major {
@@ -166,7 +167,7 @@ pub fn mutate_cbor(seed: &[u8], rng: &mut Rng, cap: usize, one_field: bool, out:
         if h.arg > 0 { out.push(("len-minus1".into(), splice(seed, h.off, h.off + h.hlen, &enc_min(h.major, h.arg - 1)))); }
     }
     // a map structure with one more field (every small key) holding an empty collection, and the one-field maps themselves
-    if heads[0].major == 5 && heads[0].ai != 31 && heads[0].end == n && n <= 400 {
+    if heads[0].major == 5 && heads[0].ai != 31 && heads[0].end == n && n <= 400 && (one_field || cap >= 8) {
         let h = &heads[0];
         for k in 0..=25u8 { for e in [&[0x80u8][..], &[0xd9, 0x01, 0x02, 0x80], &[0xa0], &[0x9f, 0xff], &[0xf6]] {
             let mut v = enc_min(5, h.arg + 1); v.extend_from_slice(&seed[h.hlen..]); v.extend(enc_min(0, k as u64)); v.extend_from_slice(e); out.push(("add-field".into(), v));
@@ -318,6 +319,13 @@ pub fn mutate_json(js: &str, rng: &mut Rng, out: &mut Vec<(String, String)>) {
             out.push(("j-str-upper".into(), format!("{}\"{}\"{}", &js[..s], inner.to_uppercase(), &js[e..])));
         }
     }
+    // long / non-ASCII keys inserted into objects, and in place of strings (unknown variant names, text in error messages)
+    let tt = tricky_texts();
+    let opens: Vec<usize> = js.match_indices('{').map(|(i, _)| i).take(3).collect();
+    for &p in &opens { for _ in 0..6 { let t = &tt[rng.below(tt.len() as u64) as usize];
+        out.push(("j-longkey".into(), format!("{}\"{}\":0,{}", &js[..p + 1], t, &js[p + 1..]))); } }
+    for _ in 0..6 { if toks.is_empty() { break; } let (s0, e0, k) = toks[rng.below(toks.len() as u64) as usize]; if k != b's' { continue; }
+        let t = &tt[rng.below(tt.len() as u64) as usize]; out.push(("j-longstr".into(), format!("{}\"{}\"{}", &js[..s0], t, &js[e0..]))); }
     // structure: duplicated object, array/object confusion, deep nesting, garbage
     out.push(("j-double".into(), format!("{}{}", js, js)));
     out.push(("j-wrap".into(), format!("[{}]", js))); out.push(("j-wrap".into(), format!("{{\"x\":{}}}", js)));
@@ -613,6 +621,7 @@ pub fn build_cases(model_txt: &str, rng: &mut Rng, thorough: bool, cases: &mut V
     let docs = ["{\"a\":1,\"b\":[1,2,{\"c\":\"0x00ff\"}],\"d\":\"text\",\"e\":-5}", "[1,-1,\"x\",\"0x\",[],{}]", "{\"map\":[{\"k\":{\"int\":1},\"v\":{\"bytes\":\"00\"}}]}",
         "{\"list\":[{\"int\":-1},{\"string\":\"s\"},{\"bytes\":\"ff\"},{\"map\":[]}]}", "{\"constructor\":0,\"fields\":[{\"int\":1},{\"bytes\":\"00\"},{\"list\":[]},{\"map\":[{\"k\":{\"int\":1},\"v\":{\"int\":2}}]}]}",
         "{\"int\":18446744073709551616}", "{\"int\":-18446744073709551617}", "{\"constructor\":18446744073709551615,\"fields\":[]}", "{\"5\":\"five\",\"-3\":[],\"0x00\":{}}", "12345678901234567890123", "-9223372036854775808", "\"0x\"", "{\"bytes\":\"0\"}", "{\"string\":1}",
+        "{\"aaaaaaaaaaaaaaaaaaaaaaaaaaaaaaaaaaaaaaaaaaaaaaa\u{e9}bbb\":1}", "{\"map\":[{\"k\":{\"string\":\"aaaaaaaaaaaaaaaaaaaaaaaaaaaaaaaaaaaaaaaaaaaaaaa\u{e9}bbbbbbbbbbbbbbbbbbbbbbbbbbbbbbbbbbbbbb\"},\"v\":{\"int\":1}}]}",
         "{\"constructor\":-1,\"fields\":[]}", "{\"constructor\":0}", "{\"fields\":[]}", "{\"int\":1,\"bytes\":\"00\"}", "{\"a\":null}", "[true]", "1.5", "{\"int\":1.5}", "{\"list\":{}}", "{\"map\":[{\"k\":{\"int\":1}}]}", "{\"map\":[1]}",
         &format!("\"{}\"", "x".repeat(65)), &format!("\"0x{}\"", "00".repeat(65)), &format!("{{\"string\":\"{}\"}}", "y".repeat(65)), &format!("{{\"bytes\":\"{}\"}}", "ab".repeat(65))];
     for d in docs.iter() { let mut jm = vec![("j-doc".to_string(), d.to_string())]; if thorough { mutate_json(d, rng, &mut jm); } else { let mut t = Vec::new(); mutate_json(d, rng, &mut t); for _ in 0..40 { jm.push(t[rng.below(t.len() as u64) as usize].clone()); } }
@@ -640,7 +649,7 @@ pub fn expand_json(cases: Vec<String>, rng: &mut Rng, thorough: bool, run: &dyn 
 
 /// the short-input sweep: every input of length <= 1 for every entry point; length 2 complete (thorough) or sampled (quick)
 pub fn build_sweep(rng: &mut Rng, thorough: bool, sweep: &mut Vec<String>) {
-    let second: Vec<u8> = if thorough { (0..=255u8).collect() } else { let mut v = vec![0x00u8, 0xff]; for _ in 0..2 { v.push(rng.next() as u8); } for c in [0x17u8, 0x18, 0x1f, 0x40, 0x5f, 0x80, 0x81, 0x9f, 0xa0, 0xa1, 0xbf, 0xc2, 0xd8, 0xf6] { if rng.chance(1, 7) { v.push(c); } } v };
+    let second: Vec<u8> = if thorough { (0..=255u8).collect() } else { let mut v = vec![0x00u8, rng.next() as u8]; v.push(*rng.pick(&[0xffu8, 0x17, 0x18, 0x1f, 0x40, 0x5f, 0x80, 0x81, 0x9f, 0xa0, 0xa1, 0xbf, 0xc2, 0xd8, 0xf6])); v };
     for (kind, names) in [("dec", all_dec_names()), ("raw", all_raw_names())] { for ty in names {
         if ty == "Bip32PrivateKey.bip39" { continue; }
         sweep.push(format!("{} {} -", kind, ty));
@@ -648,7 +657,7 @@ pub fn build_sweep(rng: &mut Rng, thorough: bool, sweep: &mut Vec<String>) {
         for a in 0..=255u8 { for b in &second { sweep.push(format!("{} {} {:02x}{:02x}", kind, ty, a, b)); } }
     } }
     let ascii: Vec<u8> = (0..128u8).collect();
-    let second_t: Vec<u8> = if thorough { ascii.clone() } else { vec![b'0', b'f', b'z', b'1', b'"', b'[', b'{', b' ', (rng.below(128)) as u8] };
+    let second_t: Vec<u8> = if thorough { ascii.clone() } else { vec![b'0', b'z', *rng.pick(&[b'f', b'1', b'"', b'[', b'{', b' ']), (rng.below(128)) as u8] };
     for (kind, names) in [("hex", all_hex_names()), ("json", all_json_names()), ("b32", all_b32_names())] { for ty in names {
         sweep.push(format!("{} {} -", kind, ty));
         for a in &ascii { sweep.push(format!("{} {} {:02x}", kind, ty, a)); }
